@@ -913,6 +913,17 @@ func cmdC10(seed uint64, tier, outdir string) {
 			return c
 		}},
 		{"sample", func(t float64) *classifier.Classifier { return buildCorpus(t, small).c }},
+		{"short-docs-traced-odd-lists", func(t float64) *classifier.Classifier {
+			// a trace configuration as a command line would give it: trailing, leading and doubled commas, blanks, a lone star
+			c := classifier.NewClassifier(t)
+			for i, d := range shortDocs {
+				c.AddContent("License", fmt.Sprintf("S%d", i), "s.txt", []byte(d))
+			}
+			lists := []string{"MIT,", ",License/MIT*", "a,,b", " ", "*,", "License/*,,Header/*", ","}
+			c.SetTraceConfiguration(&classifier.TraceConfiguration{TraceLicenses: lists[r.intn(len(lists))], TracePhases: lists[r.intn(len(lists))],
+				Tracer: func(string, ...interface{}) {}})
+			return c
+		}},
 		{"short-docs", func(t float64) *classifier.Classifier {
 			c := classifier.NewClassifier(t)
 			for i, d := range shortDocs {
